@@ -60,9 +60,11 @@ package rapid
 
 // the events watcher's handler of one exit: looks the extension up among those awaiting their exit, closes the exit channel
 //@ event ExitChannelClosedFor = call rapid.(*shutdownContext).getExitedChannel
+//@ event ExitChannelClosed = close local:rapid.(*shutdownContext).handleProcessExit.exitedChannel
 //@ func (*shutdownContext).handleProcessExit
 //@   requires s != nil && termination.Name != nil
 //@   ensures [the-exit-channel-of-that-process-is-looked-up] delta(ExitChannelClosedFor) == 1 && lastarg(ExitChannelClosedFor, 1) == old(deref(termination.Name))
+//@   ensures [C09: the-exit-channel-that-was-looked-up-is-closed-once] delta(ExitChannelClosed) == 1 && last(ExitChannelClosedFor) < first(ExitChannelClosed)
 
 // C05 / C08: the per-generation state of the rapid context (initDone) belongs to the handler mutex: init, invoke and reset
 // handling read and write it with handlerExecutionMutex held, so that an invocation queued behind a reset sees either the old
@@ -386,10 +388,17 @@ package rapid
 // C09 ("or after the fixed 2 s grace", "within the deadline plus a bounded allowance"): one grace period for all processes
 // together, started before the first wait, not one per process
 //@ event ExitGraceStarted = call time.After
+//@ event ExitWaited = recv local:rapid.(*shutdownContext).clearExitedChannel.v
 //@ func (*shutdownContext).clearExitedChannel
 //@   requires s != nil
 //@   ensures [C09: one-grace-period-for-all-processes] delta(ExitGraceStarted) == 1 && lastarg(ExitGraceStarted, 0) == maxProcessExitWait
 //@   loop range channels: invariant [grace-started-once-before-the-waits] delta(ExitGraceStarted) == 1
+// C09 ("all reaped"): success is reported only after a receive on the exit channel of every process recorded in the table
+// succeeded; nobody sends on these channels, so each such receive is the observation of the close that handleProcessExit makes
+// when the supervisor reports that process's exit
+//@   loop range s.runtimeDomainExited: invariant [one-channel-per-recorded-process] len(channels) == card(visited) && delta(ExitWaited) == 0
+//@   loop range channels: invariant [one-wait-per-channel-so-far] delta(ExitWaited) == rangeindex + 1 && len(channels) == old(len(s.runtimeDomainExited)) && 0 <= rangeindex + 1 && rangeindex + 1 <= len(channels)
+//@   ensures [C09: success-only-after-the-exit-of-every-recorded-process-was-seen] r0 == nil ==> delta(ExitWaited) == old(len(s.runtimeDomainExited))
 //@   ensures [table-emptied-on-success] r0 == nil ==> len(s.runtimeDomainExited) == 0
 
 // ---------------------------------------------------------------------------------------------
